@@ -353,6 +353,32 @@ pub fn p_w3_user_rev() -> u64 {
     let rest: Vec<u64> = it.collect();
     h(&a) ^ (x << 3) ^ (y << 9) ^ (h(&rest) << 1)
 }
+pub fn p_w7_misc() -> u64 {
+    // a user-defined iterator as the second stream of zip; zip with an open range; unzip; capacity management; checked conversions;
+    // an in-register population count (mask, shift, add, fold)
+    let z: Vec<u64> = [10u64, 20, 30, 40].iter().copied().zip(Countdown { lo: 1, hi: 4 }).map(|(a, b)| a + b).collect();
+    let (ks, ids): (Vec<u64>, Vec<u32>) = vec![5u64, 0, 7, 0, 9].into_iter().zip(0u32..).filter(|(k, _)| *k != 0).unzip();
+    let mut v: Vec<u64> = Vec::new();
+    v.reserve(10);
+    v.push(3);
+    v.shrink_to_fit();
+    let big = 0x1_0000_0000_0000_0005u128;
+    let small = 0x0_0000_0000_0000_0007u128;
+    let c1 = u64::try_from(big).map(|x| x + 1).unwrap_or(99);
+    let c2 = u64::try_from(small).map(|x| x + 1).unwrap_or(99);
+    let flags = 0x5145_0411_5005_1441u64;
+    let m2 = 0x3333_3333_3333_3333u64;
+    let m4 = 0x0f0f_0f0f_0f0f_0f0fu64;
+    let mut acc = (flags & m2) + ((flags >> 2) & m2);
+    acc = (acc + (acc >> 4)) & m4;
+    let mut width = 8;
+    while width < 64 {
+        acc = acc + (acc >> width);
+        width *= 2;
+    }
+    let pc = acc & 0x7f;
+    h(&z) ^ (h(&ks) << 1) ^ ((ids.iter().map(|x| *x as u64).sum::<u64>()) << 7) ^ (h(&v) << 2) ^ (c1 << 12) ^ (c2 << 20) ^ (pc << 30) ^ ((flags.count_ones() as u64) << 40)
+}
 pub fn p_w3_refs_search() -> u64 {
     let v = [1u64, 3, 3, 5, 8, 13];
     let a = &v[1];
@@ -413,6 +439,7 @@ mod probe_tests {
             ("p_w3_slice_patterns", p_w3_slice_patterns()),
             ("p_w3_user_rev", p_w3_user_rev()),
             ("p_w3_refs_search", p_w3_refs_search()),
+            ("p_w7_misc", p_w7_misc()),
         ];
         for (n, v) in all {
             println!("PROBE {} {}", n, v);
